@@ -129,6 +129,30 @@ pub fn gen_multi(src: &mut Src, _i: usize) -> Case {
     case
 }
 
+/// large screens (more than 255 rows / columns) and many calls
+pub fn gen_large(src: &mut Src, _i: usize) -> Case {
+    let (cols, rows) = gen::large_size(src);
+    let mut g = G::new(cols, rows);
+    let mut case = Case::new(cols, rows, gen::limit(src));
+    case.calls.push(Call::FeedStr(String::new()));
+    let n = src.range(2, 30);
+    for _ in 0..n {
+        if src.chance(1, 10) {
+            let (c, r) = if src.chance(1, 2) { gen::large_size(src) } else { gen::resize_target(src, &g) };
+            g.cols = c;
+            g.rows = r;
+            case.calls.push(Call::Resize(c, r));
+        } else {
+            let mut s = gen::frag(src, &g);
+            if src.chance(1, 4) {
+                s.push_str(&format!("\x1b[{};{}H", src.range(1, g.rows), src.range(1, g.cols)));
+            }
+            case.calls.push(Call::FeedStr(s));
+        }
+    }
+    case
+}
+
 /// enumerated: after priming and filling, each single mutating command alone, at every
 /// cursor position of small screens, on both screens
 fn enum_single() -> Vec<Case> {
@@ -171,6 +195,7 @@ pub fn run(env: &Env) -> PropRun {
     let mut parts = vec![];
     let es = enum_single();
     parts.push(run_part(env, "enum-single-commands", es.len(), true, "sizes {1x1,2x2,3x4,5x3} x primary/alternate x {wrapped,unwrapped,sparse} content x every cursor cell incl. wrap-pending x 40 single mutating commands", &|i| es.get(i).cloned(), &j));
+    parts.push(random_part(env, "large-screens", env.tier.scale(1_500, 30), &gen_large, &j));
     parts.push(random_part(env, "single-op-calls", env.tier.scale(100_000, 40), &gen_single_ops, &j));
     parts.push(random_part(env, "multi-op-calls", env.tier.scale(80_000, 40), &gen_multi, &j));
     PropRun {
